@@ -3,7 +3,7 @@ import itertools
 import random
 import sys
 
-from common import main
+from common import main, budget
 import build
 
 LABELS = ["car", "pedestrian", "bicycle", "unknown", "truck"]
@@ -154,7 +154,7 @@ def search(item, seed):
             why = check(case)
             if why:
                 return dict(function="get_object_results", input=case, observed=why)
-    for _ in range(600):
+    for _ in range(budget(600)):
         case = gen_case(rnd)
         why = check(case)
         if why:
